@@ -96,6 +96,10 @@ pub struct Case {
     pub marker: [u8; 16],
     pub gens: Vec<Generation>,
     pub salt: u64,
+    /// corpus subjects: != 0 => the writer's schema lists the record fields in another order than the
+    /// Rust type serializes them (values handed over as `Value` follow the schema's order)
+    #[serde(default)]
+    pub perm: u64,
 }
 
 #[derive(Clone, Copy, PartialEq, Debug)]
@@ -144,7 +148,7 @@ fn read_back(bytes: &[u8], schema: &Schema, salt: u64, corpus: Option<&str>) -> 
                 let rd = Reader::new(&mut src).map_err(|e| format!("Reader::new: {e}"))?;
                 let mut out = vec![];
                 for item in rd.into_deser_iter::<T>() {
-                    out.push(item.map_err(|e| format!("deser item {}: {e}", out.len()))?.to_value());
+                    out.push(crate::corpus::reorder_to_schema(item.map_err(|e| format!("deser item {}: {e}", out.len()))?.to_value(), schema));
                 }
                 Ok(out)
             }) {
@@ -193,7 +197,10 @@ impl Env<'_> {
     fn value(&self, v: &Val) -> Value {
         match (v, &self.rs, self.corpus) {
             (Val::R(rv), Some((rs, defs)), _) => to_avro(rv, rs, defs),
-            (Val::C(j), _, Some(id)) => with_corpus!(id, T => serde_json::from_value::<T>(j.clone()).expect("corpus value").to_value()),
+            (Val::C(j), _, Some(id)) => {
+                let v = with_corpus!(id, T => serde_json::from_value::<T>(j.clone()).expect("corpus value").to_value());
+                crate::corpus::reorder_to_schema(v, self.schema)
+            }
             _ => panic!("value/subject mismatch"),
         }
     }
@@ -283,7 +290,7 @@ fn run_case(case: &Case, ctx: &mut Ctx) -> Option<Failure> {
             (&parsed.schema, Some((rs, &parsed.defs)), None)
         }
         Subject::Corpus(id) => {
-            corpus_schema = with_corpus!(id.as_str(), T => T::get_schema());
+            corpus_schema = with_corpus!(id.as_str(), T => crate::corpus::permuted_schema(&T::get_schema(), case.perm));
             (&corpus_schema, None, Some(id.as_str()))
         }
     };
@@ -817,6 +824,7 @@ impl Property for C03 {
             marker: crate::common::marker_from(&mut wr),
             gens,
             salt: wr.next_u64(),
+            perm: { let mut pr = rng.fork("perm"); if pr.chance(1, 3) { pr.next_u64() | 1 } else { 0 } },
         })
     }
 
